@@ -77,8 +77,8 @@ Section Ext.
     - destruct (arity_nat (c_arity fA)) as [|[|[|k]]]; try reflexivity.
       + destruct (pop1 s) as [s1 x]. apply xbind_ext. intros items _. rewrite map_app_ext. reflexivity.
       + destruct (pop1 s) as [s1 rhs]. destruct (pop1 s1) as [s2 lhs].
-        destruct lhs, rhs; try reflexivity; try (rewrite map_app_ext; reflexivity).
-        apply xbind_ext. intros items _. rewrite map_app_ext. reflexivity.
+        destruct lhs, rhs; try reflexivity; try (rewrite map_app_ext; reflexivity);
+          (apply xbind_ext; intros items _; rewrite map_app_ext; reflexivity).
     - destruct (popn _ (push (reg s) s)) as [s1 popped]. rewrite Happ. reflexivity.
     - destruct (arity_nat (c_arity fA)) as [|[|k]]; try reflexivity.
       + destruct (pop1 s) as [s1 x]. apply xbind_ext. intros items _. rewrite filter_app_ext. reflexivity.
@@ -285,6 +285,7 @@ Section Sim.
   Lemma token_sim indef t s : token_core indef t = true -> m_token cf mrec indef t s = r_token cf rrec t s.
   Proof.
     unfold token_core, m_token, r_token. destruct (tk t); intro H; try discriminate; try reflexivity.
+    all: try (destruct (string_value t); reflexivity).
     - destruct (tv t) as [|k [|? ?]]; try reflexivity. apply elem_sim.
     - apply andb_prop in H as [H1 H2]. rewrite H1, H2. reflexivity.
   Qed.
@@ -438,7 +439,7 @@ Section Sim.
       destruct (rrec cond s) as [[g s1]| |]; simpl; auto.
       destruct g; simpl in ON; try contradiction.
       destruct (pop1 s1) as [s2 v]. destruct (Hwl indef v cond body s2 Hc1 Hc2) as [E2 ON2]. rewrite E2. plain; exact ON2.
-    - rewrite Hc. destruct (lookup_var _ s) as [[z|l|c]|]; simpl; auto. rewrite call_sim. plain; apply only_norm_norm.
+    - rewrite Hc. destruct (lookup_var _ s) as [[z|t0|l|c]|]; simpl; auto. rewrite call_sim. plain; apply only_norm_norm.
     - apply andb_prop in Hc as [Hc Hb]. apply andb_prop in Hc as [Hc Hp]. apply andb_prop in Hc as [Hi Hn].
       rewrite Hi, Hn. simpl. destruct (params_of params); simpl; auto.
     - simpl. auto.
@@ -528,7 +529,7 @@ Proof.
   intro H. unfold finish. destruct (pop1 s) as [s1 output].
   apply xbind_ext. intros o _.
   match goal with |- (if ?w then _ else _) = _ => destruct w end; [|reflexivity].
-  destruct o as [[z|l|c]|t]; try reflexivity.
+  destruct o as [[z|t0|l|c]|t]; try reflexivity.
   destruct (c_named c); [reflexivity|].
   match goal with |- context [popn ?n ?st] => destruct (popn n st) as [s3 popped] end.
   rewrite H. reflexivity.
